@@ -143,6 +143,8 @@ class Live(JupyterMixin, RenderHook):
             self.console.show_cursor(False)
             self._enable_redirect_io()
             self.console.push_render_hook(self)
+            # a new region: nothing of an earlier session (e.g. one whose stop() failed) is erased
+            self._live_render._shape = None
             self._started = True
 
             if self.auto_refresh:
